@@ -212,3 +212,30 @@ package syncer
 //@   after_call syncer.(*InstanceSet).Contains#2 ghost loc_waitOwn := ghost_lastContains
 //@   at_call utils.SleepContext#0 assert idle_published: !s.opt.ReceiveOnly && ghost_loc_info <= uint64(lastSyncedTxnID) ==> ghost_unpub > ghost_loc_info
 //@   at_call utils.SleepContext#0 assert idle_only_waiting_own: ghost_loc_info > uint64(lastSyncedTxnID) ==> ghost_loc_waitOwn == 1
+
+// ---------------------------------------------------------------- C18: all-or-nothing merge
+
+// Version gates: refuse format 0, a compat version newer than this build, a
+// format older than the oldest supported one, and a zero transaction id.
+//@ func NewNativeIterator
+//@   nopanic
+//@   ensures gates: iff(r1 != nil, formatVersion == 0 || compatVersion > snapshot.CurrentFormatVersion || formatVersion < snapshot.CompatFormatVersion || txnID == 0)
+//@   ensures nil_on_error: r1 != nil ==> r0 == nil
+//@   ensures carries_arguments: r1 == nil ==> r0 != nil && r0.DBIMsg == dbiMsg && r0.DefaultTimestampNano == defaultTS && r0.TxnID == txnID && r0.FormatVersion == formatVersion && r0.DeletedCutoff == deletedCutoff && !r0.HeaderPaddingBlock
+
+// The callback of LoadOnce's single write transaction: every error of a callee
+// aborts the transaction (returned as a non-nil error), private DBIs found in
+// a snapshot are never opened or merged, application DBIs are only created
+// from format >= 3 snapshots (or with explicit override flags), and the
+// iterator writes the id of this transaction.
+//@ func (s *Syncer) LoadOnce$1
+//@   noswallow
+//@   loop 0 invariant not_failed: ghost_loc_failed == 0
+//@   at_call lmdb.(*Txn).OpenDBI#0 assert not_private: !hasPrefix(dbiName, "_sync")
+//@   at_call lmdb.(*Txn).OpenDBI#0 assert create_rule: snap.FormatVersion >= 3 || dbiOpt.OverrideCreateFlags != nil
+//@   at_call lmdb.(*Txn).OpenDBI#1 assert not_private: !hasPrefix(dbiName, "_sync")
+//@   at_call lmdb.(*Txn).OpenDBI#2 assert not_private: !hasPrefix(dbiName, "_sync")
+//@   at_call strategy.Update#0 assert not_private: !hasPrefix(dbiName, "_sync")
+//@   at_call strategy.Update#0 assert validated: ghost_loc_validated == 1
+//@   after_call snapshot.(*DBI).ValidateTransform#0 ghost loc_validated := ite(ret0 == nil, 1, 0)
+//@   at_call syncer.NewNativeIterator#0 assert txn_id: uint64(arg4) == ghost_curTxn && arg3 == 0 && arg0 == snap.FormatVersion && arg1 == snap.CompatVersion
